@@ -1527,6 +1527,90 @@ func init() {
 				}
 			}
 			var obs []Obligation
+			// sort adapters whose comparison runs user code: Len, Less and Swap are called by the sort
+			// routine in between the user's comparisons, so they too must work from cells captured once —
+			// a slice FIELD — and not fetch the cells of a *LVal field each time
+			{
+				type adapter struct {
+					methods map[string]FuncUnit
+				}
+				ads := map[string]*adapter{}
+				for _, u := range c.Funcs(isKernel) {
+					if u.Decl == nil || u.Decl.Recv == nil || u.Decl.Body == nil {
+						continue
+					}
+					sig := u.Obj.Type().(*types.Signature)
+					if sig.Recv() == nil {
+						continue
+					}
+					tn := canonTypes(sig.Recv().Type().String())
+					tn = strings.TrimPrefix(tn, "*")
+					if ads[tn] == nil {
+						ads[tn] = &adapter{methods: map[string]FuncUnit{}}
+					}
+					ads[tn].methods[u.Obj.Name()] = u
+				}
+				for _, tn := range sortedKeys(ads) {
+					ad := ads[tn]
+					less, hasLess := ad.methods["Less"]
+					_, hasLen := ad.methods["Len"]
+					_, hasSwap := ad.methods["Swap"]
+					if !hasLess || !hasLen || !hasSwap {
+						continue
+					}
+					userCmp := false
+					for _, ce := range callsIn(less.Decl.Body, true) {
+						if f := originOf(Callee(less.Pkg.TypesInfo, ce)); f != nil && runsUser[f] {
+							userCmp = true
+						}
+					}
+					if !userCmp {
+						continue
+					}
+					for _, mn := range sortedKeys(ad.methods) {
+						mu := ad.methods[mn]
+						minfo := mu.Pkg.TypesInfo
+						if mu.Decl.Recv == nil || len(mu.Decl.Recv.List) != 1 || len(mu.Decl.Recv.List[0].Names) != 1 {
+							continue
+						}
+						recv := minfo.Defs[mu.Decl.Recv.List[0].Names[0]]
+						var reread ast.Node
+						isRecvLValField := func(e ast.Expr) bool {
+							se, ok := ast.Unparen(e).(*ast.SelectorExpr)
+							if !ok || identObj(minfo, se.X) != recv {
+								return false
+							}
+							tv, ok := minfo.Types[se]
+							return ok && isLValPtr(c, tv.Type)
+						}
+						ast.Inspect(mu.Decl.Body, func(n ast.Node) bool {
+							switch y := n.(type) {
+							case *ast.CallExpr:
+								f := originOf(Callee(minfo, y))
+								if f == seqCellsFn && len(y.Args) == 1 && isRecvLValField(y.Args[0]) {
+									reread = y
+								}
+								if f == lenM {
+									if se, ok := ast.Unparen(y.Fun).(*ast.SelectorExpr); ok && isRecvLValField(se.X) {
+										reread = y
+									}
+								}
+							case *ast.SelectorExpr:
+								if FieldOfSelector(minfo, y) == cellsFld && isRecvLValField(y.X) {
+									reread = y
+								}
+							}
+							return true
+						})
+						construct := "sort adapter method " + mn
+						if reread != nil {
+							obs = append(obs, mkOb(c, rid, mu, construct, reread, Violated, "the sort adapter fetches the cells of the sequence it sorts (`"+types.ExprString(reread.(ast.Expr))+"`) on every call, while its Less runs user code between the calls: a comparator that shrinks the vector in place (elpspath:?del!) leaves sort.Stable with indexes past the new end, and the builtin answers internal-panic (index out of range)", true))
+						} else if mn == "Len" || mn == "Less" || mn == "Swap" {
+							obs = append(obs, mkOb(c, rid, mu, construct, mu.Decl, Proved, "works from the cells the adapter was built with", true))
+						}
+					}
+				}
+			}
 			seen := map[*types.Func]bool{}
 			for _, e := range c.Registry() {
 				body, u, _, ok := c.BodyOf(e)
